@@ -46,4 +46,7 @@ T_pure  == << {"new"}, {"fit"}, {"predict"}, {"predict", "readdf"}, {"predict", 
 T_inter == << {"new"}, {"new"}, {"fit"}, {"predict", "fit"}, {"fit", "predict"}, {"predict"} >>
 T_obs   == << {"new"}, {"fit"}, {"predict"}, {"predict"}, {"predict"}, {"predict"} >>
 T_warm  == << {"other", "new"}, {"other", "new"}, {"new", "fit"}, {"fit", "other"}, {"fit", "predict"}, {"predict"} >>
+\* every operation allowed at every position: explored by random simulation (tlc -simulate), not exhaustively
+AllOps == {"new", "fit", "predict", "sweep", "save", "load", "restart", "readdf", "scribble", "other"}
+T_free  == [k \in 1..14 |-> AllOps]
 =============================================================================
